@@ -764,6 +764,23 @@ def form_squeeze(ctx, modules=('transform', 'earth', 'util', 'error_model')):
                 nm = [sized(a) for a in c.args]
                 if all(nm) and len(set(nm)) >= 2:
                     bcast |= set(nm)
+        # second idiom: several parameters each lifted by np.atleast_1d / np.atleast_2d and then
+        # combined element-wise (transform.perturb_lla, compute_lla_difference)
+        lifted = set()
+        for st in ast.walk(f.node):
+            if isinstance(st, ast.Assign) and len(st.targets) == 1 and \
+                    isinstance(st.targets[0], ast.Name) and isinstance(st.value, ast.Call):
+                c0 = st.value
+                while isinstance(c0, ast.Call) and isinstance(c0.func, ast.Attribute) and \
+                        c0.func.attr == 'copy':
+                    c0 = c0.func.value
+                if isinstance(c0, ast.Call) and norm_text(c0.func) in ('np.atleast_1d',
+                                                                       'np.atleast_2d') and \
+                        c0.args and isinstance(c0.args[0], ast.Name) and \
+                        c0.args[0].id == st.targets[0].id and st.targets[0].id in f.params:
+                    lifted.add(st.targets[0].id)
+        if len(lifted) >= 2:
+            bcast |= lifted
         if len(bcast) < 2:
             continue
         # form tests: conjunctions / single comparisons of `<name>.ndim` with 0 or 1
